@@ -27,7 +27,7 @@ func init() {
 	for _, r := range []*core.Rule{
 		{ID: "C17.1", Title: "rebuilt maps/slices receive exactly one element per source element", Mod: core.ModObf, Floor: 2, Run: c17_1, Canary: c17_1Canary},
 		{ID: "C17.2", Title: "no structural mutation of telemetry containers", Mod: core.ModObf, Floor: 1, Run: c17_2},
-		{ID: "C17.3", Title: "cipher created once per instance, in the constructors only", Mod: core.ModObf, Floor: 3, Run: c17_3},
+		{ID: "C17.3", Title: "cipher created once per instance, in the constructors only", Mod: core.ModObf, Floor: 1, Run: c17_3},
 		{ID: "C17.4", Title: "value switches: typed writers, cipher on Str/Bytes, recursion, verbatim default", Mod: core.ModObf, Floor: 8, Run: c17_4},
 		{ID: "C17.5", Title: "scalar rewrites are x.SetF(enc(x.F()))", Mod: core.ModObf, Floor: 5, Run: c17_5},
 		{ID: "C17.6", Title: "no randomness/time on the processing path; encrypt helpers are pure in the cipher", Mod: core.ModObf, Floor: 3, Run: c17_6},
